@@ -40,5 +40,15 @@ theorem C03_right_branch_uses_parent (n obj pol f ps st best pivot)
 example : (search 2 none Policy.fifo 30 [.linEq [1, 1] [0, 1] 2] (fun i => if i < 2 then [0, 1, 2] else [0])).solutions
     = [[0, 2], [1, 1], [2, 0]] := by decide
 
+/-- **C03, without the fuel proviso.** Declared domains are duplicate-free (they come from a
+`SparseSet`); then every fuel `≥ m.fuelBound` suffices (`IModel.search_terminates`: propagation
+strictly shrinks the store at every event, the agenda is duplicate-free, each branch removes a value
+of the pivot), so the enumeration is exact for every well-formed model outright. -/
+theorem C03_enumerate_exact_total (m : IModel) (h : m.WF) (hnd : ∀ d ∈ m.doms, d.Nodup) (pol : Policy)
+    (fuel : Nat) (hf : m.fuelBound ≤ fuel) :
+    (search m.n none pol fuel m.ps m.store).solutions.Nodup ∧
+    ∀ v, v ∈ (search m.n none pol fuel m.ps m.store).solutions ↔ ∃ a, v = proj m.n a ∧ m.IsSol a :=
+  C03_enumerate_exact m h pol fuel (m.search_terminates h hnd none (fun _ e => by cases e) pol fuel hf)
+
 end C03
 end Selen
